@@ -28,7 +28,7 @@ for d in sorted(glob.glob(os.path.join(V, 'benign', 'C*-ben*'))):
         meta.pop('error', None)
         if '_error' in r and not meta['checks_run']:
             meta['error'] = r['_error']
-        meta['what_was_run'] = 'tools/par_matrix.py on benign/<id>/patch.diff (patched scratch worktree of /repo HEAD + a copy of /verif pointing at it; quick tier; all checks at the time of the wave, later re-runs of the property's own check and C18)'
+        meta['what_was_run'] = 'tools/par_matrix.py on benign/<id>/patch.diff (patched scratch worktree of /repo HEAD + a copy of /verif pointing at it; quick tier; all checks at the time of the wave, later re-runs of the own check and C18)'
         json.dump(meta, open(mp, 'w'), indent=1)
     cr = meta.get('checks_run', {})
     rows.append((sid, ', '.join(meta.get('files', [])), len(cr), meta.get('non_zero_exits', {}), sum(x.get('engine_m_groups_not_decided', 0) for x in cr.values()), meta.get('error', '')))
